@@ -40,6 +40,14 @@ NEEDS = {
  "agent3-F4": ("C08", "the lg_n >= 32 guard returns InvalidBitsize and the call site uses a plain ?, reaching the panic arm of From<ProofError> for R1CSError", "decodable proof with |L| >= 32 (all entries valid points)"),
  "agent3-F5": ("C02", "flattening weights taken from a 256-entry power table with an off-by-one block base: rows 256k and 256k+1 share a weight, on both sides", "statement with >= 257 constraint rows; two violated rows straddling a block boundary with cancelling errors (or any differential reference)"),
  "agent3-F6": ("C05", "Verifier::commit projects the incoming commitment onto the prime-order subgroup before storing / absorbing it", "curve25519 only: verifier statement whose commitment differs by a small-order point"),
+ "agent4-H1": ("C09", "prover skips the blinding of A_O2 (o_blinding2 = 0, A_O2 = identity) when every second-phase gate has output 0", "two-phase circuit whose second-phase gates all have zero outputs (half-open allocate, product with a zero factor)"),
+ "agent4-H2": ("C03", "validate_and_append_point decides 'identity' from the uncompressed encoding (all coordinate bytes zero), which is wrong for twisted-Edwards points", "curve25519 only: a mandatory proof point that is the identity in a proof whose other relations hold (adversarial prover / degenerate IPP round)"),
+ "agent4-H3": ("C16", "create_randomized_constraints keeps only the LAST callback's result on both roles", ">= 2 randomized callbacks, a missing assignment (or other error) in one that is not the last"),
+ "agent4-H4": ("C12", "the chain fast-forward offset is taken from Vec::capacity() instead of len() (tables are reserve_exact'ed, so only deserialised tables differ)", "serialize/deserialize round trip at a capacity that is not a power of two >= 4, followed by an increase"),
+ "agent4-H5": ("C07", "batch_verify folds the padded sizes with |= (sum of distinct powers of two) instead of max", "batch with >= 2 different padded sizes and a generator capacity equal to the largest one (tight)"),
+ "agent4-H6": ("C01", "IPP create folds wide rounds (half >= 128) in projective form with one closure for G and H (H needs the weights swapped)", "inner-product length >= 512, i.e. >= 257 gates"),
+ "agent4-H7": ("C02", "multiply() with two structurally identical compound inputs replaces the second copy row by r - r = 0 on both roles", "multiply(e, e) with e of >= 2 terms and a cheating assignment on that gate's right wire"),
+ "agent4-H8": ("C11", "from_bytes decodes unvalidated and checks subgroup membership of the SUM of all proof points once", "curve25519 only: two points shifted by +T and -T (cancelling small-order components)"),
 }
 for d in sorted(glob.glob('/verif/seeded/*/')):
     name=os.path.basename(d.rstrip('/'))
